@@ -5,5 +5,6 @@ CONSTANTS
   Coalesce = TRUE
   RefuseAfterTorn = FALSE
   AllowCancel = TRUE
+  ArmBeforeRefuse = FALSE
   MaxFaults = 2
 INVARIANTS WholeFrames NothingAfterPartial OkImpliesWhole NotStartedNoBytes CountExact
